@@ -105,7 +105,9 @@ def _run_task(i):
     qual = c.target + (f"[{cname}]" if cname else "")
     _PROVER.time = 0.0
     _t0 = time.time()
-    fv = FuncVC(qual, c.fn, c, _THEORY, _PROVER, cls_name=c.cls_name, def_cls=c.def_cls,
+    params = dict(params)
+    cls_name = params.pop("__cls__", c.cls_name)       # verify an inherited body for a subclass receiver
+    fv = FuncVC(qual, c.fn, c, _THEORY, _PROVER, cls_name=cls_name, def_cls=c.def_cls,
                 case_params=params, case_name=cname)
     try:
         res = fv.run()
